@@ -6,6 +6,15 @@
 // controls the schedule dimensions the statement names through a puppet child
 // (this very test binary re-executed with VERIF_PUPPET set) and a gated
 // consumer of Output().  The oracle is schedule independent.
+//
+// A second family of runs (Config.Fam == "gosimple", gosimple.go) goes through
+// simpleshell.GoSimple, the entry point the program itself uses, against an
+// HTTPS server of the worker on loopback that plays curlrevshell's /io side:
+// whatever GoSimple sets on the command it builds is then in play.  A few of
+// those runs let the consumer stand still for 1.5-2.5 s of REAL time after it
+// has seen the command exited while output is still outstanding (faults
+// gosimple_real_nap_after_exit, backlog_beyond_c2_window_during_nap): a grace
+// period after which output is given up shows only then.
 package cmdshellsim
 
 import (
@@ -46,6 +55,19 @@ const (
 // (io.Reader allows both; position of the item does not matter).
 //
 //	consumer: rgate(g=reaped|go_returned|input_done) read(n,sz) drain(sz)
+//	          readx(sz,n) nap(n)
+//
+// readx: the consumer reads sz bytes at a time, pausing n microseconds after
+// each read, until the child is seen to have exited (an observed state; the
+// pause only makes the consumer the slowest party so that everything between
+// the child and the consumer is full when the child exits).  With g=wblock the
+// next read is made, after the pause (which lets the freed room travel up to
+// the command), only when the child is seen blocked in a write to its output
+// (an observed state: everything in between is full), at the latest 50 ms
+// later.
+// nap: the consumer does nothing for n milliseconds of REAL time (the one wait
+// of this engine that is not an observed state: it stands for "the reader is
+// still behind long after the command has gone", see Config.Fam).
 type Item struct {
 	K    string `json:"k"`
 	FD   int    `json:"fd,omitempty"`
@@ -56,12 +78,40 @@ type Item struct {
 	Sig  int    `json:"sig,omitempty"`
 }
 
-// Config holds what is fixed for a case (nothing so far but a version).
+// Config holds what is fixed for a case.
 type Config struct {
 	V int `json:"v"`
+	// Fam selects the family of the run: "" drives a CmdShell directly
+	// (NewCmdShell, SetInput, Output, Go); famGoSimple goes through the entry
+	// point the program itself uses, simpleshell.GoSimple, against an HTTPS
+	// server of the worker that plays curlrevshell's /io side (pinned key,
+	// loopback): the consumer is the handler reading the request body, the
+	// input is the response body, the puppet is the command.
+	Fam string `json:"fam,omitempty"`
+	// Win is the server's HTTP/2 receive buffer per stream and connection
+	// (0: net/http's default).  It only changes how much output is in flight
+	// between the shell and the consumer.
+	Win int `json:"win,omitempty"`
+	// FPre: the pinned fingerprint is given with its optional sha256// prefix.
+	FPre bool `json:"fpre,omitempty"`
 }
 
+const famGoSimple = "gosimple"
+
+// Limits of the GoSimple family: its plans need more output than everything
+// between the shell and the consumer (HTTP/2 windows, TLS, sockets) can hold.
+const (
+	gsMaxWrite  = 4 << 20
+	gsMaxOutput = 8 << 20
+	maxNapMS    = 5000
+	maxPauseUS  = 20000
+	// longNapMS: a nap at least this long makes a run slow enough for the
+	// engine to repeat it less often (minimiser, confirmation).
+	longNapMS = 1000
+)
+
 type plan struct {
+	cfg   Config
 	items []Item
 	child []Item
 	input []Item
@@ -82,6 +132,10 @@ type plan struct {
 	wdrains    [3]int
 	wdrainDeep bool           // a wdrain with more before it than one relay chunk
 	gates      map[string]int // consumer gates by kind
+	hasReadx   bool
+	napMS      int  // real-time naps of the consumer, in all
+	napReaped  bool // a nap of at least longNapMS after the child was seen reaped
+	unblocker  bool // input bytes follow a child_exited gate
 }
 
 func (it Item) String() string {
@@ -93,14 +147,33 @@ func isChild(k string) bool {
 	return k == "w" || k == "close" || k == "eof" || k == "cwait" || k == "wdrain" || k == "exit" || k == "kill"
 }
 func isInput(k string) bool { return k == "in" || k == "ingate" || k == "inz" || k == "indataeof" }
-func isCons(k string) bool  { return k == "rgate" || k == "read" || k == "drain" }
+func isCons(k string) bool {
+	return k == "rgate" || k == "read" || k == "drain" || k == "readx" || k == "nap"
+}
 
 // newPlan splits and validates items.  A non-empty string says why the list
 // is not an executable plan (the case is then Invalid).
-func newPlan(items []Item) (*plan, string) {
-	p := &plan{items: items, drain: 32768, gates: map[string]int{}}
+func newPlan(cfg Config, items []Item) (*plan, string) {
+	p := &plan{cfg: cfg, items: items, drain: 32768, gates: map[string]int{}}
 	exitSeen, eofSeen, drainSeen := false, false, false
 	written := 0
+	gs := false
+	mWrite, mOutput := maxWrite, maxOutput
+	switch cfg.Fam {
+	case "":
+		if cfg.Win != 0 || cfg.FPre {
+			return nil, "server options without a server"
+		}
+	case famGoSimple:
+		gs = true
+		mWrite, mOutput = gsMaxWrite, gsMaxOutput
+		if cfg.Win != 0 && (cfg.Win < 65536 || cfg.Win >= 4<<20) {
+			return nil, "bad receive buffer"
+		}
+	default:
+		return nil, "unknown family " + cfg.Fam
+	}
+	sawInGate := false
 	for _, it := range items {
 		switch {
 		case isChild(it.K):
@@ -112,7 +185,7 @@ func newPlan(items []Item) (*plan, string) {
 				if it.FD != 1 && it.FD != 2 {
 					return nil, "bad fd"
 				}
-				if it.N < 0 || it.N > maxWrite {
+				if it.N < 0 || it.N > mWrite {
 					return nil, "bad write size"
 				}
 				if p.closed[it.FD] {
@@ -140,6 +213,11 @@ func newPlan(items []Item) (*plan, string) {
 					p.wdrainDeep = true
 				}
 			case "eof":
+				if gs {
+					// the input is a response body: it ends only with the
+					// request, that is after the command's output has ended
+					return nil, "eof step in the GoSimple family"
+				}
 				if eofSeen {
 					return nil, "two eof steps"
 				}
@@ -164,11 +242,17 @@ func newPlan(items []Item) (*plan, string) {
 			}
 			p.child = append(p.child, it)
 		case isInput(it.K):
+			if gs && (it.K == "inz" || it.K == "indataeof") {
+				return nil, "input reader modes in the GoSimple family"
+			}
 			if it.K == "in" {
 				if it.N < 1 || it.N > maxChunk {
 					return nil, "bad input chunk"
 				}
 				p.inTotal += it.N
+				if sawInGate {
+					p.unblocker = true
+				}
 			} else if it.K == "inz" {
 				p.zeroRds++
 			} else if it.K == "indataeof" {
@@ -179,6 +263,7 @@ func newPlan(items []Item) (*plan, string) {
 					return nil, "bad input gate"
 				}
 				p.inGate = true
+				sawInGate = true
 			}
 			p.input = append(p.input, it)
 		case isCons(it.K):
@@ -189,12 +274,25 @@ func newPlan(items []Item) (*plan, string) {
 				}
 				p.gates[it.G]++
 			case "read":
-				if it.N < 1 || it.N > maxOutput || it.Sz < 1 || it.Sz > maxChunk {
+				if it.N < 1 || it.N > mOutput || it.Sz < 1 || it.Sz > maxChunk {
 					return nil, "bad read item"
 				}
 				if it.N/it.Sz > maxReads {
 					return nil, "too many reads"
 				}
+			case "readx":
+				if it.Sz < 1 || it.Sz > maxChunk || it.N < 0 || it.N > maxPauseUS {
+					return nil, "bad readx item"
+				}
+				if it.G != "" && (it.G != "wblock" || it.N < 1) {
+					return nil, "bad readx mode"
+				}
+				p.hasReadx = true
+			case "nap":
+				if it.N < 1 || it.N > maxNapMS {
+					return nil, "bad nap"
+				}
+				p.napMS += it.N
 			case "drain":
 				if drainSeen {
 					return nil, "two drain items"
@@ -211,8 +309,19 @@ func newPlan(items []Item) (*plan, string) {
 		}
 	}
 	total := p.out[1] + p.out[2]
-	if total > maxOutput {
+	if total > mOutput {
 		return nil, "too much output"
+	}
+	if p.napMS > maxNapMS {
+		return nil, "naps too long"
+	}
+	if gs && !p.unblocker {
+		// os/exec's Wait does not return while its copy of the input is
+		// blocked reading; with a response body as input the only thing that
+		// ends that read before the request is over is more input, which then
+		// cannot be written to the dead command.  Without it the stream
+		// could rightly stay open for ever.
+		return nil, "GoSimple family without input after the child's exit"
 	}
 	if total/p.drain > maxDrainRd {
 		return nil, "drain too slow for this much output"
@@ -253,13 +362,26 @@ func newPlan(items []Item) (*plan, string) {
 		}
 	}
 	pos := 0
+	exitedSeen := false // the consumer has seen the child exited
 	for _, it := range p.cons {
 		switch it.K {
 		case "read":
 			pos += it.N
+		case "readx":
+			// reading on until the child has exited cannot block anybody;
+			// afterwards the child has done all its steps
+			exitedSeen = true
+		case "nap":
+			if exitedSeen && it.N >= longNapMS {
+				p.napReaped = true
+			}
 		case "rgate":
+			if exitedSeen && it.G != "input_done" {
+				break // the child has nothing left to do that could be blocked
+			}
 			switch it.G {
 			case "reaped":
+				exitedSeen = true
 				// the child must be able to finish all its steps
 				if !p.childCanReach(len(p.child), pos) {
 					return nil, "reaped gate with more outstanding output than a pipe surely holds"
@@ -393,12 +515,16 @@ func (p *plan) largeLastWrite() bool {
 }
 
 func (p *plan) nonTrivial() bool {
-	return len(p.gates) > 0 || p.inGate || p.hasCwait || p.wdrains[1]+p.wdrains[2] > 0 || p.exitCode != 0 || p.killSig != 0 ||
+	return p.cfg.Fam != "" || p.hasReadx || len(p.gates) > 0 || p.inGate || p.hasCwait || p.wdrains[1]+p.wdrains[2] > 0 || p.exitCode != 0 || p.killSig != 0 ||
 		p.out[1]+p.out[2]+p.inTotal > 4096
 }
 
 func (p *plan) describe() []string {
 	out := make([]string, 0, len(p.items)+1)
+	if p.cfg.Fam != "" {
+		b, _ := json.Marshal(p.cfg)
+		out = append(out, "config "+string(b))
+	}
 	for i, it := range p.items {
 		out = append(out, fmt.Sprintf("plan[%d] %s", i, it))
 	}
